@@ -288,6 +288,14 @@ def finish(mod, camp):
                 lines.append("KNOWN-FINDING: property=%s %s [%s]" % (mod.PID, k.get("what", ""), k["id"]))
             continue
         small = _shrink(mod, case, sig, shrink_budget)
+        if small is not case:
+            try:
+                for s2, d2 in mod.run_case(small).failures:
+                    if s2 == sig:
+                        detail = d2
+                        break
+            except Exception:
+                small = case
         # re-classify the shrunk case: it must not have drifted into a known finding
         os.makedirs(os.path.join(OUT, "replay", mod.PID), exist_ok=True)
         safe = "".join(ch if ch.isalnum() or ch in "-_." else "_" for ch in sig)[:80]
